@@ -187,7 +187,24 @@ def fam_explicit_return_abi_local(n):
     return pt.Return(pt.And(clamp_inc(pt.Int(n)) == pt.Int(want), tag(pt.Int(n)) == pt.Bytes(wtag))), 6
 
 
+def fam_abi_many_locals(n):
+    """an ABI-returning routine (reserved output cell) with n ABI locals: around the 128 frame entries they spill to scratch"""
+    from pyteal import abi
+
+    @pt.ABIReturnSubroutine
+    def many(a: abi.Uint64, *, output: abi.Uint64) -> pt.Expr:
+        vs = [abi.Uint64() for _ in range(n)]
+        tot = a.get()
+        for v in vs[:2] + vs[-3:]:
+            tot = tot + v.get()
+        return pt.Seq(*[v.set(pt.Int(i + 1)) for i, v in enumerate(vs)], output.set(tot))
+    x, r_ = abi.Uint64(), abi.Uint64()
+    want = 5 + 1 + 2 + (n - 2) + (n - 1) + n
+    return pt.Seq(x.set(pt.Int(5)), many(x).store_into(r_), pt.Return(r_.get() == pt.Int(want))), 6
+
+
 FAMILIES = {
+    "abi_many_locals": (fam_abi_many_locals, [126, 127, 128, 130]),
     "explicit_return_abi_local": (fam_explicit_return_abi_local, [0, 3, 12]),
     "rec_byref_local": (fam_rec_byref_local, [0, 1, 3]),
     "fact": (fam_fact, [0, 1, 5]),
